@@ -192,37 +192,36 @@ Proof.
   - intros k H1 H2. rewrite jget_jdel_other by exact H2. apply jget_jset_other; exact H1.
 Qed.
 
-(* the Transceiver branch as it is: the i-th assigned entry reports the name assigned at step i-1, the first
-   one the entry's own type_variety *)
-Lemma trx_loop_reports : forall names cur,
-  map (fun p => jget "type_variety" (snd p)) (trx_loop cur names) =
-  match names with
-  | [] => []
-  | _ => jget "type_variety" cur :: map (fun n => Some (JStr n)) (removelast names)
-  end.
+Lemma jset_jdel_comm : forall k k' v o, String.eqb k k' = false ->
+  jset k v (jdel k' o) = jdel k' (jset k v o).
 Proof.
-  induction names as [|n t IH]; intros cur; [reflexivity|].
-  cbn [trx_loop map snd]. rewrite jget_jdel_other by reflexivity. f_equal.
-  rewrite IH. destruct t as [|m r]; [reflexivity|].
-  rewrite jget_jset_same. reflexivity.
+  intros k k' v o Hne. assert (Hne' : String.eqb k' k = false) by (rewrite String.eqb_sym; exact Hne).
+  induction o as [|[k2 v2] t IH]; cbn.
+  - now rewrite Hne'.
+  - destruct (String.eqb k' k2) eqn:E1; destruct (String.eqb k k2) eqn:E2; cbn; rewrite ?E1, ?E2; cbn.
+    + apply String.eqb_eq in E1, E2. subst. now rewrite String.eqb_refl in Hne.
+    + exact IH.
+    + rewrite E1. reflexivity.
+    + rewrite E1, IH. reflexivity.
 Qed.
 
-Definition trx_witness : obj :=
-  [("type_variety"%string, JStr "Voyager"); ("other_name"%string, JArr [JStr "aliasA"; JStr "aliasB"]);
-   ("frequency"%string, JObj [("min"%string, JNum 1913500000000000 1); ("max"%string, JNum 1961000000000000 1)])].
-
-(* F5: the full alias specification is false of the faithful Transceiver model *)
-Theorem alias_transceiver_refuted :
-  exists e names l n e',
-    jhas "other_name" e = true /\ alias_names e = Ok names /\ expand_trx e = Ok l /\ In n names /\
-    lookup_last n l = Some e' /\ jget "type_variety" e' <> Some (JStr n).
+(* the Transceiver branch (after the fix of F5) builds the same entries as the Edfa branch *)
+Lemma expand_trx_eq : forall e, expand_trx e = expand_edfa e.
 Proof.
-  exists trx_witness, ["aliasA"; "aliasB"; "Voyager"]%string.
-  eexists. exists "aliasA"%string. eexists.
-  repeat split; try (vm_compute; reflexivity).
-  - now left.
-  - vm_compute. discriminate.
+  intros e. unfold expand_trx, expand_edfa. destruct (jhas "other_name" e); [|reflexivity].
+  destruct (alias_names e) as [names|]; [|reflexivity]. cbn [bind]. f_equal.
+  apply map_ext. intros n. f_equal. now apply jset_jdel_comm.
 Qed.
+
+Theorem alias_spec_trx : forall e names l,
+  jhas "other_name" e = true -> alias_names e = Ok names -> expand_trx e = Ok l ->
+  forall n, In n names ->
+    lookup_last n l = Some (alias_entry e n)
+    /\ jget "type_variety" (alias_entry e n) = Some (JStr n)
+    /\ jget "other_name" (alias_entry e n) = None
+    /\ (forall k, String.eqb k "type_variety" = false -> String.eqb k "other_name" = false ->
+                  jget k (alias_entry e n) = jget k e).
+Proof. intros e names l Hh Hn Hx. rewrite expand_trx_eq in Hx. exact (alias_spec_edfa e names l Hh Hn Hx). Qed.
 
 (* ------------------------------------------------------------------ decimal text: printing and parsing *)
 Lemma pow10_pos : forall n, 0 < pow10 n.
@@ -835,6 +834,18 @@ Proof.
   destruct (String.eqb k k'); [discriminate|]. intros H. now rewrite IH.
 Qed.
 
+Lemma jset_comm : forall k1 k2 v1 v2 o, String.eqb k1 k2 = false -> jget k1 o <> None -> jget k2 o <> None ->
+  jset k1 v1 (jset k2 v2 o) = jset k2 v2 (jset k1 v1 o).
+Proof.
+  intros k1 k2 v1 v2 o Hne. assert (Hne' : String.eqb k2 k1 = false) by (rewrite String.eqb_sym; exact Hne).
+  induction o as [|[k v] t IH]; cbn; intros H1 H2; [now elim H1|].
+  destruct (String.eqb k1 k) eqn:E1; destruct (String.eqb k2 k) eqn:E2; cbn; rewrite ?E1, ?E2; cbn; rewrite ?E1, ?E2.
+  - apply String.eqb_eq in E1, E2. subst. now rewrite String.eqb_refl in Hne.
+  - reflexivity.
+  - reflexivity.
+  - f_equal. now apply IH.
+Qed.
+
 (* ------------------------------------------------------------------ design bands: ROADM params *)
 Definition db_entry (dv : string * json) : json := JObj [(K_degree, JStr (fst dv)); (K_db, snd dv)].
 
@@ -1003,38 +1014,83 @@ Proof.
   rewrite !jdel_app, (jdel_notin _ _ H1). cbn [jdel]. rewrite String.eqb_refl, Hne. now rewrite app_nil_r.
 Qed.
 
-(* a library with ONE Span (resp. SI) entry: the range comes back *)
-Theorem range_roundtrip_single : forall key lk dk dothers others a b c,
-  String.eqb lk dk = false -> jget lk others = None -> jget dk others = None -> jget key dothers = None ->
-  let doc := dothers ++ [(key, JArr [JObj (others ++ [(lk, JArr [a; b; c])])])] in
-  exists doc', on_entries key (range_entry lk dk) doc = Ok doc' /\ back_range_first key lk dk doc' = Ok doc.
+Lemma back_range_entry_ok : forall lk dk others a b c,
+  String.eqb lk dk = false -> jget lk others = None -> jget dk others = None ->
+  back_range_entry lk dk (JObj (others ++ [(dk, range_dict a b c)])) = Ok (JObj (others ++ [(lk, JArr [a; b; c])])).
 Proof.
-  intros key lk dk dothers others a b c Hne H1 H2 H3 doc. subst doc.
-  assert (Hk : String.eqb dk lk = false) by (rewrite String.eqb_sym; exact Hne).
-  unfold on_entries. rewrite (jget_last _ _ _ H3). cbn [as_arr bind]. rewrite mapM_cons. cbn [as_obj bind].
-  rewrite (range_entry_forth _ _ _ _ _ _ Hne H1 H2), mapM_nil. cbn [bind].
-  eexists; split; [reflexivity|].
-  rewrite jset_app_notin by exact H3. cbn [jset]. rewrite String.eqb_refl.
-  unfold back_range_first. rewrite (jget_last _ _ _ H3). cbn [as_arr bind key_in jhas].
-  unfold jhas. rewrite (jget_last _ _ _ H2). cbn [as_obj bind]. unfold jreq. rewrite (jget_last _ _ _ H2).
+  intros lk dk others a b c Hne H1 H2. unfold back_range_entry. cbn [key_in bind]. unfold jhas.
+  rewrite (jget_last _ _ _ H2). cbn [as_obj bind]. unfold jreq. rewrite (jget_last _ _ _ H2).
   cbn [bind as_obj range_dict jget String.eqb Ascii.eqb Bool.eqb].
-  rewrite (jset_notin lk) by (rewrite jget_app, H1; cbn; now rewrite Hne).
-  rewrite !jdel_app, (jdel_notin _ _ H2). cbn [jdel]. rewrite String.eqb_refl, Hk, app_nil_r.
-  rewrite jset_app_notin by exact H3. cbn [jset]. rewrite String.eqb_refl. reflexivity.
+  rewrite (jdel_last _ _ _ H2), (jset_notin _ _ _ H1). reflexivity.
 Qed.
 
-(* F15: with a second SI entry the round trip is NOT the identity (the code converts entry 0 only) *)
-Definition si_entry (tv : string) : json :=
-  JObj [("type_variety"%string, JStr tv); ("power_dbm"%string, JNum 0 0);
-        ("power_range_db"%string, JArr [JNum 0 0; JNum 0 0; JNum 1 0])].
-Definition two_si_doc : obj := [("SI"%string, JArr [si_entry "default"; si_entry "lband"])].
+(* an entry that carries its range as a list, last key *)
+Definition range_entry_ok (lk dk : string) (e : json) : Prop :=
+  exists others a b c, e = JObj (others ++ [(lk, JArr [a; b; c])]) /\ jget lk others = None /\ jget dk others = None.
 
-Theorem range_second_entry_refuted :
-  exists doc doc' doc'', convert_delta_power_range doc = Ok doc' /\ convert_back_delta_power_range doc' = Ok doc''
-                         /\ doc'' <> doc.
+Lemma jset_jset : forall k v1 v2 o, jset k v2 (jset k v1 o) = jset k v2 o.
 Proof.
-  exists two_si_doc. eexists. eexists. split; [vm_compute; reflexivity|]. split; [vm_compute; reflexivity|].
-  discriminate.
+  intros k v1 v2 o; induction o as [|[k' v'] t IH]; cbn.
+  - now rewrite String.eqb_refl.
+  - destruct (String.eqb k k') eqn:E; cbn; rewrite E; [reflexivity|now rewrite IH].
+Qed.
+
+(* any number of entries under one key *)
+Lemma range_roundtrip_key : forall key lk dk doc es,
+  String.eqb lk dk = false -> jget key doc = Some (JArr es) -> Forall (range_entry_ok lk dk) es ->
+  exists es', on_entries key (range_entry lk dk) doc = Ok (jset key (JArr es') doc) /\
+              back_range_all key lk dk (jset key (JArr es') doc) = Ok doc.
+Proof.
+  intros key lk dk doc es Hne Hk HF.
+  assert (Hall : Forall (fun e => exists e', (let* eo := as_obj e in let* eo' := range_entry lk dk eo in Ok (JObj eo')) = Ok e'
+                                            /\ back_range_entry lk dk e' = Ok ((fun x => x) e)) es).
+  { rewrite Forall_forall in *. intros e He. destruct (HF e He) as (others & a & b & c & -> & H1 & H2).
+    exists (JObj (others ++ [(dk, range_dict a b c)])). cbn [as_obj bind].
+    rewrite (range_entry_forth _ _ _ _ _ _ Hne H1 H2). split; [reflexivity|].
+    now apply back_range_entry_ok. }
+  destruct (mapM_chain _ _ _ _ Hall) as (es' & M1 & M2). rewrite map_id in M2.
+  exists es'. split.
+  - unfold on_entries. rewrite Hk. cbn [as_arr bind]. rewrite M1. reflexivity.
+  - unfold back_range_all. rewrite jget_jset_same. cbn [as_arr bind]. rewrite M2. cbn [bind].
+    now rewrite jset_jset, (jset_same _ _ _ Hk).
+Qed.
+
+(* the whole pair on a library: every Span entry and every SI entry *)
+Theorem range_roundtrip : forall doc spans sis,
+  jget "Span" doc = Some (JArr spans) -> jget "SI" doc = Some (JArr sis) ->
+  Forall (range_entry_ok "delta_power_range_db" "delta_power_range_dict_db") spans ->
+  Forall (range_entry_ok "power_range_db" "power_range_dict_db") sis ->
+  exists doc', convert_delta_power_range doc = Ok doc' /\ convert_back_delta_power_range doc' = Ok doc.
+Proof.
+  intros doc spans sis Hs Hi Fs Fi.
+  destruct (range_roundtrip_key "Span" _ _ doc spans eq_refl Hs Fs) as (sp' & A1 & A2).
+  set (d1 := jset "Span" (JArr sp') doc) in *.
+  assert (Hi1 : jget "SI" d1 = Some (JArr sis)) by (unfold d1; rewrite jget_jset_other by reflexivity; exact Hi).
+  destruct (range_roundtrip_key "SI" _ _ d1 sis eq_refl Hi1 Fi) as (si' & B1 & B2).
+  set (d2 := jset "SI" (JArr si') d1) in *.
+  exists d2. unfold convert_delta_power_range, convert_back_delta_power_range. rewrite A1. cbn [bind]. split; [exact B1|].
+  (* back: Span first, on d2 *)
+  assert (Hs2 : jget "Span" d2 = Some (JArr sp')).
+  { unfold d2. rewrite jget_jset_other by reflexivity. unfold d1. apply jget_jset_same. }
+  assert (Hall : mapM (back_range_entry "delta_power_range_db" "delta_power_range_dict_db") sp' = Ok spans).
+  { unfold back_range_all in A2. unfold d1 in A2. rewrite jget_jset_same in A2. cbn [as_arr bind] in A2.
+    destruct (mapM _ sp') as [x|] eqn:E; [|discriminate]. cbn [bind] in A2. injection A2 as A2.
+    rewrite jset_jset in A2. f_equal.
+    assert (G : jget "Span" (jset "Span" (JArr x) doc) = jget "Span" doc) by now rewrite A2.
+    rewrite jget_jset_same, Hs in G. now injection G. }
+  unfold back_range_all at 1. rewrite Hs2. cbn [as_arr bind]. rewrite Hall. cbn [bind].
+  (* jset Span spans d2 = jset SI si' doc *)
+  assert (E : jset "Span" (JArr spans) d2 = jset "SI" (JArr si') doc).
+  { unfold d2, d1. rewrite jset_comm by reflexivity. rewrite jset_jset, (jset_same _ _ _ Hs). reflexivity. }
+  rewrite E.
+  unfold back_range_all in B2. unfold d2 in B2. rewrite jget_jset_same in B2. cbn [as_arr bind] in B2.
+  destruct (mapM (back_range_entry "power_range_db" "power_range_dict_db") si') as [y|] eqn:E2; [|discriminate].
+  cbn [bind] in B2. injection B2 as B2. rewrite jset_jset in B2.
+  assert (Hy : y = sis).
+  { assert (G : jget "SI" (jset "SI" (JArr y) d1) = jget "SI" d1) by now rewrite B2.
+    rewrite jget_jset_same, Hi1 in G. now injection G. }
+  subst y. unfold back_range_all. rewrite jget_jset_same. cbn [as_arr bind]. rewrite E2. cbn [bind].
+  now rewrite jset_jset, (jset_same _ _ _ Hi).
 Qed.
 
 (* F16: RamanFiber raman_efficiency does not come back under its own name *)
